@@ -36,6 +36,8 @@ EXPLANATION = (
     "class_level_mutable_state is armed for the whole backend class family.  "
     "R8 (added) the values of STPNT (`args(k) = v`, `y(i) = v`) and of the c.* files are printed value-preservingly (str/repr/plain "
     "hole/>= 17 significant digits/e->d swap); fewer digits, round(), stripping or replacing digits is a violation.  "
+    "R9 (added) parse_equations registers all definitions of an operator in declaration order before every equation; a skip of "
+    "that loop must be conditioned on `no definition left`, not on `some argument already is a node`.  "
     "Extracted private emitters are followed: a method that receives the slot list (and the sequence it was computed for) or the "
     "state list is analysed like _generate_auto_files itself; the reordering may be a returned expression of a helper; slots/indices "
     "of unknown provenance end in ANALYSIS-ERROR, not in a violation.  "
@@ -2162,6 +2164,125 @@ def r8_values_printed_value_preservingly(ctx, rid):
                label="constants printed value-preservingly")
 
 
+PARSER = "pyrates/backend/parser.py"
+
+
+def r9_preregistration_before_every_operator(ctx, rid):
+    """PAR slots, parnames and the subroutine signature follow the order in which variables are registered with the backend, and
+    that order is the declaration order only because parse_equations registers ALL definitions of an operator (the dict-valued
+    entries of its argument table) before it parses an equation of that operator.  The pre-registration loop (the loop over the
+    operator's arguments that calls add_var / register_vars) must therefore run before the expression parser for every equation,
+    or be skipped only under a condition that implies "no unregistered definition is left" (no argument of the definition type
+    remains).  A skip decided by something else - e.g. "some argument already is a compute node", which is true from the start for
+    operators with inputs from other operators - lets the first equation register the parameters in first-use order."""
+    f = _callee_view(ctx, ctx.repo.get_func(PARSER, "parse_equations"))      # an extracted pre-registration helper is spliced in
+    S = Scope(ctx, f)
+    loops = []
+    for lp in walk_shallow(f.node):
+        if isinstance(lp, ast.For) and any(isinstance(c, ast.Call) and call_name(c) == "add_var" for c in ast.walk(lp)) \
+                and any(isinstance(c, ast.Call) and call_name(c) == "register_vars" for c in ast.walk(lp)) \
+                and not any(isinstance(c, ast.Call) and call_name(c) in ("ExpressionParser", "parse_expr") for c in ast.walk(lp)):
+            loops.append(lp)
+    ctx.require(len(loops) == 1, f"{rid}: expected one pre-registration loop (add_var + register_vars over the operator's arguments) in "
+                                 f"parse_equations, found {len(loops)}")
+    lp = loops[0]
+    parse_calls = [c for c in walk_shallow(f.node) if isinstance(c, ast.Call) and call_name(c) in ("ExpressionParser", "parse_expr")]
+    ctx.require(bool(parse_calls), f"{rid}: the expression parser call of parse_equations was not found")
+    pst = _stmt(parse_calls[0])
+    label = "declaration-order pre-registration precedes every equation"
+    if not S.cfg.dominates(lp, pst) and not any(isinstance(a, ast.If) and contains(a, lp) for a in ancestors(lp)):
+        if S.cfg.dominates(pst, lp):
+            ctx.violation(rid, f, lp, "the pre-registration loop runs after the equation was parsed: variables are registered in first-use "
+                                      "order", label=label)
+            return
+        raise AnalysisError(f"{rid}: the pre-registration loop does not precede the expression parser on every path (unrecognised form)")
+    # the table and the definition type
+    it = lp.iter
+    cond = None
+    if isinstance(it, ast.IfExp):
+        empty_else = isinstance(it.orelse, (ast.Tuple, ast.List)) and not it.orelse.elts
+        empty_body = isinstance(it.body, (ast.Tuple, ast.List)) and not it.body.elts
+        if empty_else:
+            cond, it = it.test, it.body
+        elif empty_body:
+            cond, it = ast.UnaryOp(op=ast.Not(), operand=it.test), it.orelse
+        else:
+            raise AnalysisError(f"{rid}: iteration `{ast.unparse(lp.iter)}` of the pre-registration loop not recognised")
+    guards = [a for a in ancestors(lp) if isinstance(a, ast.If) and a is not f.node and not isinstance(a, (ast.For,))
+              and any(contains(b, lp) or b is lp for b in a.body + a.orelse)]
+    outer_for = next((a for a in ancestors(lp) if isinstance(a, ast.For)), None)
+    guards = [g for g in guards if outer_for is None or contains(outer_for, g)]
+    if len(guards) > 1 or (guards and cond is not None):
+        raise AnalysisError(f"{rid}: the pre-registration loop is nested in several conditions (unrecognised form)")
+    if guards:
+        g = guards[0]
+        cond = g.test if any(contains(b, lp) or b is lp for b in g.body) else ast.UnaryOp(op=ast.Not(), operand=g.test)
+    e = strip_wrappers(it)
+    tab = e.func.value if isinstance(e, ast.Call) and isinstance(e.func, ast.Attribute) and e.func.attr in ("items", "keys", "values") else e
+    if not isinstance(tab, ast.Name):
+        raise AnalysisError(f"{rid}: the pre-registration loop does not iterate over a named argument table (`{ast.unparse(lp.iter)}`)")
+    # definition type: the isinstance test that lets an argument through to add_var
+    vname = None
+    for nm in ast.walk(lp.target):
+        if isinstance(nm, ast.Name):
+            vname = nm.id           # last name of the target = the value of .items()
+    def_types = set()
+    addv = [c for c in ast.walk(lp) if isinstance(c, ast.Call) and call_name(c) == "add_var"][0]
+    for a in ancestors(addv):
+        if a is lp:
+            break
+        if isinstance(a, ast.If) and any(contains(b, addv) for b in a.body):
+            for t in ast.walk(a.test):
+                if isinstance(t, ast.Call) and call_name(t) == "isinstance" and len(t.args) == 2 and isinstance(t.args[0], ast.Name) \
+                        and t.args[0].id == vname and not (isinstance(parent(t), ast.UnaryOp)):
+                    def_types.add(ast.unparse(t.args[1]))
+    for b in lp.body:
+        if contains(b, addv):
+            break
+        if isinstance(b, ast.If) and not b.orelse and b.body and isinstance(b.body[-1], ast.Continue) \
+                and isinstance(b.test, ast.UnaryOp) and isinstance(b.test.op, ast.Not) and isinstance(b.test.operand, ast.Call) \
+                and call_name(b.test.operand) == "isinstance" and isinstance(b.test.operand.args[0], ast.Name) \
+                and b.test.operand.args[0].id == vname:
+            def_types.add(ast.unparse(b.test.operand.args[1]))
+    ctx.require(len(def_types) == 1, f"{rid}: cannot identify the type of a not-yet-registered definition in the pre-registration loop "
+                                     f"({sorted(def_types)})")
+    def_type = next(iter(def_types))
+    facts = {"table": tab.id, "definition_type": def_type, "runs_if": ast.unparse(cond) if cond is not None else "always"}
+    if cond is None:
+        ctx.ok(rid, f, lp, f"every equation is preceded by the registration of all `{def_type}` definitions of its operator in "
+                           f"declaration order", facts, label=label)
+        return
+    c = S.single_value(cond) if isinstance(cond, ast.Name) else cond
+    neg = False
+    while isinstance(c, ast.UnaryOp) and isinstance(c.op, ast.Not):
+        c, neg = c.operand, not neg
+        c = S.single_value(c) if isinstance(c, ast.Name) else c
+    # `any(isinstance(v, T) for v in TAB.values())`
+    T = None
+    if isinstance(c, ast.Call) and isinstance(c.func, ast.Name) and c.func.id == "any" and len(c.args) == 1 \
+            and isinstance(c.args[0], (ast.GeneratorExp, ast.ListComp)) and len(c.args[0].generators) == 1 and not c.args[0].generators[0].ifs:
+        g0 = c.args[0].generators[0]
+        src = strip_wrappers(g0.iter)
+        src_tab = src.func.value if isinstance(src, ast.Call) and isinstance(src.func, ast.Attribute) and src.func.attr == "values" else None
+        elt = c.args[0].elt
+        if isinstance(src_tab, ast.Name) and src_tab.id == tab.id and isinstance(elt, ast.Call) and call_name(elt) == "isinstance" \
+                and len(elt.args) == 2 and isinstance(elt.args[0], ast.Name) and isinstance(g0.target, ast.Name) and elt.args[0].id == g0.target.id:
+            T = ast.unparse(elt.args[1])
+    if T is None:
+        raise AnalysisError(f"{rid}: cannot judge the condition `{ast.unparse(cond)}` under which the pre-registration runs")
+    facts["condition_type"] = T
+    if not neg and T == def_type:
+        ctx.ok(rid, f, lp, f"the pre-registration is skipped only when no `{def_type}` definition is left among the operator's arguments",
+               facts, label=label)
+    else:
+        what = (f"no argument is a `{T}` yet" if neg else f"some argument is a `{T}`")
+        ctx.violation(rid, f, lp, f"the pre-registration runs only if {what} (`{ast.unparse(c)}`), which does not mean that all `{def_type}` "
+                                  f"definitions of the operator are registered: arguments that are `{T}` from the start (inputs from other "
+                                  f"operators, `t`) make the skip fire on the operator's FIRST equation, so its parameters are registered in "
+                                  f"first-use order and PAR slots / parnames / the signature no longer follow the declaration order",
+                      facts, label=label)
+
+
 RULES = [
     # today: 20 (9 uses of the slot list in _generate_auto_files + 1 in the Jacobian block, 5 slot-bearing templates, 3 hand-over
     # tables, 2 chain links); the floor leaves room for two uses to turn into something else, the categories are required separately
@@ -2171,6 +2292,7 @@ RULES = [
     ("C18-R4", r4_time_slot, 4),
     ("C18-R5", r5_slot_arithmetic, 2),
     ("C18-R6", r_str_membership, 1),
+    ("C18-R9", r9_preregistration_before_every_operator, 1),
     ("C18-R8", r8_values_printed_value_preservingly, 3),     # STPNT args(k), STPNT y(i), c.* lines
     ("C18-R7", r7_export_state_is_per_instance, 5),      # declaration table, op-call table, code lines, imports, helper functions
 ]
